@@ -1,10 +1,11 @@
 import OFV.Driver.Core
 import OFV.Driver.OpsC16
+import OFV.Driver.OpsC15
 namespace OFV.Driver
 open OFV
 
 def families : List (String × List (String × Handler)) :=
-  [("C16", C16.handlers)]
+  [("C16", C16.handlers), ("C15", C15.handlers), ("C18", C18.handlers)]
 
 structure Stats where
   lines : Nat := 0
@@ -21,7 +22,7 @@ def splitArrow (line : String) : String × String :=
 partial def loop (h : IO.FS.Stream) (prop : String) (hs : List (String × Handler)) (st : Stats) : IO Stats := do
   let line ← h.getLine
   if line.isEmpty then return st
-  let line := (line.dropRightWhile (fun c => c = '\n' || c = '\r'))
+  let line := line.trimAsciiEnd.toString
   if line.isEmpty || line.startsWith "#" then
     loop h prop hs st
   else
